@@ -48,8 +48,9 @@ def _name_pass(t):
     return False
 
 
-def binder_sources(fn, flow, operand):
-    """classify the provenance of a binder operand: set of 'SRC:<param>.<field>', 'FRESH', 'CONST', 'OTHER'"""
+def binder_sources(fn, flow, operand, fx=None, depth=0):
+    """classify the provenance of a binder operand: set of 'SRC:<param>.<field>', 'FRESH', 'CONST', 'OTHER'; with `fx`, a helper of
+    fun2core whose result is drawn from the fresh-name supply counts as the supply"""
     r = op_root(operand)
     if r is None:
         return {"CONST"}
@@ -62,6 +63,13 @@ def binder_sources(fn, flow, operand):
             if t.get("callee_name") in FRESH_NAMES:
                 out.add("FRESH")
             else:
+                k2 = t.get("resolved_key") or (t.get("callee_key") if not t.get("callee_trait") else None)
+                if fx is not None and depth < 2 and k2 in fx.fns and fx.fns[k2]["crate"] == "fun2core" and "{" not in k2:
+                    hfn = Fn(fx.fns[k2])
+                    sub = binder_sources(hfn, Flow(hfn, extra_pass=_name_pass), {"k": "copy", "pl": {"l": 0, "p": []}}, fx, depth + 1)
+                    if sub == {"FRESH"}:
+                        out.add("FRESH")
+                        continue
                 out.add("CALL:%s" % t.get("callee_name"))
         elif o[0] == "const":
             out.add("CONST")
@@ -167,10 +175,6 @@ def rule_seed(ctx):
                 ok = False
             res.inst(ikey, s["sp"]["file"], s["sp"]["line"], "ok" if ok else "violation")
     # compile_prog: used_labels seeded from every def name
-    fn = Fn(fx.fn("fun2core::program::compile_prog"))
-    flow = Flow(fn, extra_pass=lambda t: t.get("callee_name") in ("iter", "map", "collect", "into_iter", "cloned") and (t.get("callee") or "").startswith(("core::", "alloc::")))
-    ok = False
-    site = None
     def hands_on(t):
         """the call translates definitions: compile_def / compile_main, or a helper of fun2core that calls them"""
         if t.get("callee_name") in ("compile_def", "compile_main"):
@@ -181,17 +185,42 @@ def rule_seed(ctx):
             return False
         bodies = [g] + [h for hk, h in fx.fns.items() if (h.get("parent") or "").startswith(k2) and "{promoted" not in hk]
         return any(b_["term"]["k"] == "call" and b_["term"].get("callee_name") in ("compile_def", "compile_main") for h in bodies for b_ in h["blocks"])
-    for bi, t in fn.calls():
-        if hands_on(t):
-            site = t
-            # the label set: the last argument of compile_def / compile_main, the set-typed argument of a helper
-            cands = [t["args"][-1]] if t.get("callee_name") in ("compile_def", "compile_main") else \
-                [a_ for a_ in t["args"] if op_root(a_) is not None and "HashSet" in fn.f["locals"][op_root(a_)]["ty"]]
-            for a in cands:
-                r = op_root(a)
-                for o in (flow.origins(r, ()) if r is not None else ()):
-                    if o[0] == "arg" and o[2][:1] == ("defs",):
-                        ok = True
+
+    def seeded(key, is_defs, depth=0):
+        """(site, ok): the label set handed on by `key` is collected from the definitions; is_defs(origin) recognises the definition list"""
+        fn_ = Fn(fx.fns[key])
+        flow_ = Flow(fn_, extra_pass=lambda t: t.get("callee_name") in ("iter", "map", "collect", "into_iter", "cloned") and (t.get("callee") or "").startswith(("core::", "alloc::")))
+        site_, ok_ = None, False
+        bodies = [key] + [hk for hk, h in fx.fns.items() if (h.get("parent") or "").startswith(key) and "{promoted" not in hk]
+        for bk in bodies:
+            bfn = fn_ if bk == key else Fn(fx.fns[bk])
+            bflow = flow_ if bk == key else Flow(bfn)
+            for bi, t in bfn.calls():
+                if not hands_on(t):
+                    continue
+                site_ = site_ or t
+                direct = t.get("callee_name") in ("compile_def", "compile_main")
+                cands = [t["args"][-1]] if direct else [a_ for a_ in t["args"] if op_root(a_) is not None and "HashSet" in bfn.f["locals"][op_root(a_)]["ty"]]
+                for a in cands:
+                    r = op_root(a)
+                    for o in (bflow.origins(r, ()) if r is not None else ()):
+                        if bk == key and is_defs(o):
+                            ok_ = True
+                        elif bk != key and o[0] == "arg" and o[1] == 1:
+                            # inside a closure: the set is a capture; where it was built is in the enclosing body
+                            for bi0, t0 in fn_.calls():
+                                pass
+                            ok_ = ok_ or any(is_defs(o2) for l0 in range(len(fn_.f["locals"])) if "HashSet" in fn_.f["locals"][l0]["ty"] for o2 in flow_.origins(l0, ()))
+                if not cands and not direct and depth < 2:
+                    # the helper is given the definitions themselves and collects the set on its own
+                    k2 = t.get("resolved_key") or t.get("callee_key")
+                    for ai, a in enumerate(t["args"]):
+                        r = op_root(a)
+                        if r is not None and any(is_defs(o) for o in bflow.origins(r, tuple(place_fields(a["pl"])))) and bk == key:
+                            s2, ok2 = seeded(k2, lambda o, ai=ai: o[0] == "arg" and o[1] == ai + 1, depth + 1)
+                            site_, ok_ = s2 or site_, ok_ or ok2
+        return site_, ok_
+    site, ok = seeded(fx.fn("fun2core::program::compile_prog")["key"], lambda o: o[0] == "arg" and tuple(o[2][:1]) == ("defs",))
     ikey = "fun2core::program::compile_prog:used_labels"
     if site is None:
         raise AnalysisError("R-SEED: compile_prog calls neither compile_def nor compile_main")
@@ -229,7 +258,7 @@ def rule_seed(ctx):
     for bi, si, s in defs:
         rv = s["rv"]
         nm = rv["ops"][rv["fields"].index("name")]
-        srcs = binder_sources(fn, Flow(fn, extra_pass=_name_pass), nm)
+        srcs = binder_sources(fn, Flow(fn, extra_pass=_name_pass), nm, fx)
         ikey = "fun2core::compile::share:def-name"
         if srcs == {"FRESH"}:
             res.inst(ikey, s["sp"]["file"], s["sp"]["line"], "ok", "name from fresh_name")
